@@ -144,10 +144,143 @@ fn fri(args: &[String]) {
     println!("}}");
 }
 
+// ---------------------------------------------------------------------------------------------------------------------
+// native reconstruction of counterexamples of the FRI-verifier harness family (Kani's concrete playback does not finish on
+// runs of this size): the same scenario is rebuilt and the small symbolic space of the obligation is searched natively
+// (honest values with up to two cells replaced by every field element). Prints `FOUND <description>` or `NONE`.
+struct NWrap { inner: DefaultVerifierChannel<T, PH>, rem: Option<Vec<T>>, commits: Option<Vec<PD128>>, layer: usize, layer_vals: Option<Vec<T>>, cur: usize }
+impl fri::VerifierChannel<T> for NWrap {
+    type Hasher = PH;
+    fn read_fri_num_partitions(&self) -> usize { self.inner.read_fri_num_partitions() }
+    fn read_fri_layer_commitments(&mut self) -> Vec<PD128> { let c = self.inner.read_fri_layer_commitments(); match self.commits.take() { Some(x) => x, None => c } }
+    fn take_next_fri_layer_proof(&mut self) -> crypto::BatchMerkleProof<PH> { self.inner.take_next_fri_layer_proof() }
+    fn take_next_fri_layer_queries(&mut self) -> Vec<T> {
+        let v = self.inner.take_next_fri_layer_queries();
+        let l = self.cur; self.cur += 1;
+        if l == self.layer { match self.layer_vals.take() { Some(x) => x, None => v } } else { v }
+    }
+    fn take_fri_remainder(&mut self) -> Vec<T> { match &self.rem { Some(x) => x.clone(), None => self.inner.take_fri_remainder() } }
+}
+
+/// all vectors that differ from `base` in at most two cells
+fn deviations(base: &[T]) -> Vec<Vec<T>> {
+    let mut out = vec![base.to_vec()];
+    for i in 0..base.len() {
+        for v in 0..257u16 { let mut x = base.to_vec(); x[i] = T(v); out.push(x); }
+    }
+    if base.len() <= 4 {
+        for i in 0..base.len() { for j in (i + 1)..base.len() {
+            for v in 0..257u16 { for w in 0..257u16 { let mut x = base.to_vec(); x[i] = T(v); x[j] = T(w); out.push(x); } }
+        } }
+    }
+    out
+}
+
+fn fri_check(args: &[String]) {
+    let kind = args[0].as_str();
+    let blowup: usize = args[1].parse().unwrap();
+    let folding: usize = args[2].parse().unwrap();
+    let remdeg: usize = args[3].parse().unwrap();
+    let ncoef: usize = args[4].parse().unwrap();
+    let positions: Vec<usize> = args[5].split(',').map(|x| x.parse().unwrap()).collect();
+    let mut seed: u64 = args[6].parse().unwrap();
+    let n = ncoef * blowup;
+    let options = FriOptions::new(blowup, folding, remdeg);
+    let offset: T = options.domain_offset();
+    let g = T::get_root_of_unity(n.ilog2());
+    let mut poly: Vec<T> = (0..ncoef).map(|_| T::new((lcg(&mut seed) % 257) as u32)).collect();
+    if poly[ncoef - 1] == T::ZERO { poly[ncoef - 1] = T::ONE; }
+    let evals: Vec<T> = (0..n).map(|i| horner(&poly, offset * pow(g, i as u64))).collect();
+    let mut channel = DefaultProverChannel::<T, PH, CtrCoin>::new(n, positions.len());
+    let mut prover = FriProver::<T, T, _, PH>::new(options.clone());
+    prover.build_layers(&mut channel, evals.clone());
+    let proof = prover.build_proof(&positions);
+    let bytes = proof.to_bytes();
+    let commits: Vec<PD128> = channel.layer_commitments().to_vec();
+    let queried: Vec<T> = positions.iter().map(|&p| evals[p]).collect();
+    let nlayers = proof.num_layers();
+    let rem: Vec<T> = proof.parse_remainder::<T>().unwrap();
+    let (lq, _) = FriProof::read_from(&mut SliceReader::new(&bytes)).unwrap().parse_layers::<PH, T>(n, folding).unwrap();
+
+    let run = |pbytes: &[u8], rem_o: Option<Vec<T>>, commits_o: Option<Vec<PD128>>, ev: &[T], layer_o: Option<(usize, Vec<T>)>| -> bool {
+        let p2 = match FriProof::read_from(&mut SliceReader::new(pbytes)) { Ok(p) => p, Err(_) => return false };
+        let inner = match DefaultVerifierChannel::<T, PH>::new(p2, commits.clone(), n, folding) { Ok(c) => c, Err(_) => return false };
+        let (layer, layer_vals) = match layer_o { Some((l, v)) => (l, Some(v)), None => (usize::MAX, None) };
+        let mut ch = NWrap { inner, rem: rem_o, commits: commits_o, layer, layer_vals, cur: 0 };
+        let mut coin = CtrCoin::new(&[]);
+        let v = match FriVerifier::new(&mut ch, &mut coin, options.clone(), ncoef - 1) { Ok(v) => v, Err(_) => return false };
+        v.verify(&mut ch, ev, &positions).is_ok()
+    };
+    // layout and last-layer oracle as in `fri`
+    let mut pos = positions.clone();
+    let mut dsize = n;
+    let mut slots: Vec<Vec<usize>> = Vec::new();
+    for _ in 0..nlayers {
+        let rowlen = dsize / folding;
+        let mut folded: Vec<usize> = Vec::new();
+        for p in pos.iter() { let f = p % rowlen; if !folded.contains(&f) { folded.push(f); } }
+        slots.push(pos.iter().map(|p| folded.iter().position(|&f| f == p % rowlen).unwrap() * folding + p / rowlen).collect());
+        pos = folded;
+        dsize = rowlen;
+    }
+    let glast = pow(g, (n / dsize) as u64);
+    let xs: Vec<T> = pos.iter().map(|&p| offset * pow(glast, p as u64)).collect();
+    let agree: Vec<T> = xs.iter().map(|&x| horner(&rem, x)).collect();
+    let mut bound = ncoef;
+    for _ in 0..nlayers { bound /= folding; }
+
+    if kind == "honest" {
+        if !run(&bytes, None, None, &queried, None) { println!("FOUND the honest proof is rejected"); } else { println!("NONE"); }
+    } else if kind == "remainder_bound" {
+        for c in deviations(&rem) { if c != rem && run(&bytes, Some(c.clone()), None, &queried, None) { println!("FOUND accepted remainder {:?} != committed {:?}", c, rem); return; } }
+        println!("NONE");
+    } else if kind == "evaluations_bound" {
+        for c in deviations(&queried) { if c != queried && run(&bytes, None, None, &c, None) { println!("FOUND accepted evaluations {:?} != committed {:?}", c, queried); return; } }
+        println!("NONE");
+    } else if let Some(l) = kind.strip_prefix("layer") {
+        let l: usize = l.parse().unwrap();
+        for c in deviations(&lq[l]) {
+            if run(&bytes, None, None, &queried, Some((l, c.clone()))) && slots[l].iter().any(|&s| c[s] != lq[l][s]) {
+                println!("FOUND accepted layer {} values {:?}, honest {:?}, queried slots {:?}", l, c, lq[l], slots[l]); return;
+            }
+        }
+        println!("NONE");
+    } else if let Some(len) = kind.strip_prefix("remainder_len") {
+        let len: usize = len.parse().unwrap();
+        let mut base: Vec<T> = rem.clone();
+        base.resize(len, T::ZERO);
+        let mut cands = deviations(&base);
+        let mut s2 = 12345u64;
+        for _ in 0..200000 { cands.push((0..len).map(|_| T::new((lcg(&mut s2) % 257) as u32)).collect()); }
+        for c in cands {
+            let mut cm = commits.clone();
+            let last = cm.len() - 1;
+            cm[last] = <PH as crypto::ElementHasher>::hash_elements(&c);
+            let ok = run(&bytes, Some(c.clone()), Some(cm), &queried, None);
+            let ag = xs.iter().zip(agree.iter()).all(|(&x, &a)| horner(&c, x) == a);
+            if ok != (len <= bound && ag) { println!("FOUND remainder {:?}: accepted = {}, within bound = {}, agrees with folded evaluations = {}", c, ok, len <= bound, ag); return; }
+        }
+        println!("NONE");
+    } else if kind == "extra" {
+        // honest proof with a copy of the last layer appended
+        let rd = |o: usize| u32::from_le_bytes([bytes[o], bytes[o + 1], bytes[o + 2], bytes[o + 3]]) as usize;
+        let mut o = 1usize; let mut start = 0usize;
+        for _ in 0..nlayers { start = o; let vl = rd(o); o += 4 + vl; let pl = rd(o); o += 4 + pl; }
+        let mut extra: Vec<u8> = bytes[..o].to_vec();
+        extra.extend_from_slice(&bytes[start..o]);
+        extra.extend_from_slice(&bytes[o..]);
+        extra[0] += 1;
+        if run(&extra, None, None, &queried, None) { println!("FOUND the proof with an additional (never consumed) FRI layer is accepted"); } else { println!("NONE"); }
+    } else {
+        eprintln!("unknown kind {kind}"); std::process::exit(2);
+    }
+}
+
 fn main() {
     let args: Vec<String> = std::env::args().skip(1).collect();
     match args.first().map(|s| s.as_str()) {
         Some("fri") => fri(&args[1..]),
+        Some("fri-check") => fri_check(&args[1..]),
         _ => { eprintln!("usage: wf-native fri <name> <blowup> <folding> <remdeg> <ncoef> <positions> <seed>"); std::process::exit(2) }
     }
 }
